@@ -25,7 +25,7 @@ RULE = ("wallets from all constructors x both networks x accounts/intervals as C
         "xprv x6, all BIP85 outputs) plus every secret-classified leaf of the unfiltered output, by equality, substring, "
         "Base58Check classification and BIP39-run detection; CLI --paranoia runs (stdout and -f file) go through the same "
         "oracle; distinct = distinct (monitor, case) digests"
-        " EXTENSIONS: + export faults after validation (trailing slash, dangling symlink, missing directory) with stdout / stderr / files scanned, one in-process CLI run of 2^15+600 rows per block in fast mode, every output channel for every constructor, the filter on generate() results extended to K-1 .. 2K+1 rows per section for every harvested threshold K")
+        " EXTENSIONS: + export faults after validation (trailing slash, dangling symlink, missing directory) with stdout / stderr / files scanned, one in-process CLI run of 2^15+600 rows per block in fast mode, every output channel for every constructor, the filter on generate() results extended to K-1 .. 2K+1 rows per section for every harvested threshold K, export targets on another file system than the temp / working directory")
 LEVEL_TEXT = ("The real filter's output (in-process and through the CLI) is scanned leaf by leaf by an independent secret "
               "classifier fed with ground truth recomputed from the seed, so a leak under a key unknown today, inside a longer "
               "string or at another nesting depth is still seen; the public part must be identical to the unfiltered output.")
@@ -203,7 +203,7 @@ def judge_cli(ctx, case):
         args = ["--paranoia", "--account", str(acct), "--interval", str(s), str(e)]
         if tn:
             args.append("--testnet")
-        target = None
+        target = otherdir = None
         fault = case.get("file_fault")
         if fault == "trailing-slash":
             # a --file value that passes validation (not a directory, nothing there yet, parent writable) and still cannot be
@@ -216,6 +216,13 @@ def judge_cli(ctx, case):
             args += ["-f", os.path.join(d, "gone", "..", "out.json", "x")]
         elif case["to_file"]:
             target = os.path.join(d, "out.json")
+            if case.get("other_fs"):
+                # the target lives on ANOTHER file system than the working directory and the system temp directory (a rename /
+                # link from either onto it fails with EXDEV): whatever an implementation falls back to must still be filtered
+                from .c20 import other_filesystem_dir
+                otherdir = other_filesystem_dir()
+                if otherdir:
+                    target = os.path.join(otherdir, "out.json")
             args += ["-f", target]
         mn_echo, pw_echo = mn, pw
         if src == "from-mnemonic":
@@ -229,12 +236,14 @@ def judge_cli(ctx, case):
             args += ["from-master-xprv", m.xprv(rb32.version_for("prv", tn, case.get("purpose", 44)))]
             mn_echo = pw_echo = None
         p = cli_run(args, d)
+        if case.get("other_fs") and otherdir and p.returncode != 0:
+            fault = "other-filesystem"          # (a failed export is not a leak; what was left behind is looked at below)
         if fault:
             # however the run ends: nothing secret on stdout / stderr / in any file left behind
             unf = rpaper.generate(m, tn, acct, s, e, mn_echo, pw_echo)
             S, scal = secret_set(m, tn, mn, pw, seed, acct, s, e, unf)
             streams = [("stdout", p.stdout), ("stderr", p.stderr)]
-            for root, _dirs, files in os.walk(d):
+            for root, _dirs, files in list(os.walk(d)) + (list(os.walk(otherdir)) if otherdir else []):
                 for fn in files:
                     try:
                         streams.append(("file:" + fn, open(os.path.join(root, fn), errors="replace").read()))
@@ -272,6 +281,8 @@ def judge_cli(ctx, case):
                          mech="C15.cli." + (bad[0][0] if bad else "public_changed"))
     finally:
         shutil.rmtree(d, ignore_errors=True)
+        if otherdir:
+            shutil.rmtree(otherdir, ignore_errors=True)
 
 
 def judge_cli_huge(ctx, case):
@@ -346,7 +357,7 @@ def run(ctx):
         s = rnd.choice([0, 3, H - 2])
         judge_cli(ctx, {"entropy": gen.rbytes(rnd, rnd.choice([16, 32])), "passphrase": rnd.choice(["", "0OIl-marker-passphrase"]),
                         "testnet": bool(j & 1), "account": rnd.choice([0, 5, 9, 44, 49, 84, 83696968]), "start": s, "end": s + rnd.randrange(0, 3),
-                        "to_file": bool((j >> 1) & 1),
+                        "to_file": bool((j >> 1) & 1), "other_fs": rnd.random() < 0.5,
                         "source": ["from-mnemonic", "from-bip39-seed", "from-master-xprv", "from-entropy-hex"][(j >> 2) % 4],
                         "purpose": rnd.choice([44, 49, 84])})
     for j0 in range(ctx.scale(8, 320)):
